@@ -216,6 +216,26 @@ def ids_read(n, acc=None):
     return acc
 
 
+def annotate_free(n):
+    """Set `free` of every function literal to (a superset of) its free identifiers: everything read in
+    its body and defaults, minus its own parameters. The machine captures free /\\ DOMAIN env."""
+    for c in children(n):
+        annotate_free(c)
+    if n["k"] == "fn":
+        acc = set()
+        ids_read(n["body"], acc)
+        for d in n["defaults"]:
+            ids_read(d, acc)
+        bound = set()
+        for p in n["params"]:
+            if p["kind"] == "pat":
+                bound |= set(pat_names(p["pat"]))
+            else:
+                bound.add(p["n"])
+        n["free"] = sorted((acc - bound) | set(n.get("free", [])))
+    return n
+
+
 def count_nodes(n):
     return 1 + sum(count_nodes(c) for c in children(n))
 
